@@ -4,6 +4,9 @@
 
 package netmask
 
+// C19: the configured netmask is a 4-byte contiguous mask
+//@ plugin-invariant[setup4,Handler4] len(netmask) == 4 && canon32(u32be(netmask))
+
 //@ func Handler4
 //@   implements handler.Handler4
 //@   modifies everything
